@@ -195,12 +195,13 @@ func BodyIsGarbage() bool {
 // payload of caller i: "c:<i>:" padded with '.'; the echo is "r:<id>:" + request payload.
 func reqPayload(i, padTo int) []byte {
 	s := []byte(fmt.Sprintf("c:%d:", i))
-	for len(s) < padTo {
-		n := padTo - len(s)
-		if n > 1<<16 {
-			n = 1 << 16
+	if len(s) < padTo {
+		out := make([]byte, padTo)
+		copy(out, s)
+		for k := len(s); k < padTo; k++ {
+			out[k] = '.'
 		}
-		s = append(s, bytes.Repeat([]byte{'.'}, n)...)
+		return out
 	}
 	return s
 }
